@@ -19,8 +19,10 @@ pub enum TimestampFormat {
 }
 
 impl From<time::OffsetDateTime> for Timestamp {
+    /// The value is kept in UTC, because the text formats end with a literal UTC designator (`Z` / `GMT`).
     fn from(value: time::OffsetDateTime) -> Self {
-        Self(value)
+        // (the conversion can only fail within a day of the limits of the supported range)
+        Self(value.checked_to_offset(time::UtcOffset::UTC).unwrap_or(value))
     }
 }
 
@@ -70,7 +72,10 @@ impl Timestamp {
     /// Returns an error if the string is invalid
     pub fn parse(format: TimestampFormat, s: &str) -> Result<Self, ParseTimestampError> {
         let ans = match format {
-            TimestampFormat::DateTime => time::OffsetDateTime::parse(s, &Rfc3339)?,
+            // keep the instant, drop the offset: `RFC3339` and `RFC1123` print a literal `Z` / `GMT`
+            TimestampFormat::DateTime => time::OffsetDateTime::parse(s, &Rfc3339)?
+                .checked_to_offset(time::UtcOffset::UTC)
+                .ok_or(ParseTimestampError::Overflow)?,
             TimestampFormat::HttpDate => time::PrimitiveDateTime::parse(s, RFC1123)?.assume_utc(),
             TimestampFormat::EpochSeconds => match s.split_once('.') {
                 Some((secs, frac)) => {
@@ -106,13 +111,11 @@ impl Timestamp {
     /// Returns an error if the formatting fails
     pub fn format(&self, format: TimestampFormat, w: &mut impl io::Write) -> Result<(), FormatTimestampError> {
         match format {
-            // `RFC3339` and `RFC1123` end with a literal UTC designator (`Z` / `GMT`),
-            // so the value must be converted to UTC before its fields are printed.
             TimestampFormat::DateTime => {
-                self.0.to_offset(time::UtcOffset::UTC).format_into(w, RFC3339)?;
+                self.0.format_into(w, RFC3339)?;
             }
             TimestampFormat::HttpDate => {
-                self.0.to_offset(time::UtcOffset::UTC).format_into(w, RFC1123)?;
+                self.0.format_into(w, RFC1123)?;
             }
             TimestampFormat::EpochSeconds => {
                 let val = self.0.unix_timestamp_nanos();
